@@ -85,9 +85,168 @@ theorem neg_normalized (B : Nat) (r : FRepr) (h : Normalized B r) : Normalized B
   unfold Normalized FRepr.neg at *
   rcases h with h | h
   · left; simp [h]
-  · right; simp only; intro h2; apply h
-    have := Int.neg_emod_eq_zero_iff ?_ |>.mp h2
-    all_goals first | exact this | skip
-    sorry
+  · right
+    intro h2
+    apply h
+    have h3 : (B : Int) ∣ -r.signif := Int.dvd_of_emod_eq_zero h2
+    exact Int.emod_eq_zero_of_dvd ((Int.dvd_neg).mp h3)
+
+/-- `Context::add` / `sub` when one operand is zero or the exponents are equal: one `repr_round` of the
+    exact result -/
+theorem addSub_simple_contract (B : Nat) (hB : 2 ≤ B) (m : Mode) (c : Coarse) (hc : CoarseSound c)
+    (dub : Int → Nat) (p : Nat) (hp : 1 ≤ p) (lhs rhs : FRepr) (rs : Int) (hrs : rs = 1 ∨ rs = -1)
+    (hl : Normalized B lhs) (hr : Normalized B rhs)
+    (h : lhs.isZero = true ∨ rhs.isZero = true ∨ lhs.exp = rhs.exp) :
+    Contract B m p (lhs.toRat B + (rs : ℚ) * rhs.toRat B)
+      ((ctxAddSub B m c dub p lhs rhs rs).1.toRat B) (ctxAddSub B m c dub p lhs rhs rs).2 := by
+  have hB0 : 0 < B := by omega
+  unfold ctxAddSub
+  by_cases hlz : lhs.isZero = true
+  · simp only [hlz, if_true]
+    rw [toRat_zero_of_isZero B lhs hlz, zero_add]
+    rcases hrs with h1 | h1
+    · subst h1; simp only [if_true]
+      have : ((1 : Int) : ℚ) * rhs.toRat B = rhs.toRat B := by simp
+      rw [this]
+      exact reprRound_contract B hB m c hc p hp rhs hr
+    · subst h1
+      have hne : ¬ ((-1 : Int) = 1) := by omega
+      simp only [hne, if_false]
+      have : ((-1 : Int) : ℚ) * rhs.toRat B = rhs.neg.toRat B := by rw [toRat_neg]; simp
+      rw [this]
+      exact reprRound_contract B hB m c hc p hp rhs.neg (neg_normalized B rhs hr)
+  · simp only [hlz, if_false, Bool.false_eq_true]
+    by_cases hrz : rhs.isZero = true
+    · simp only [hrz, if_true]
+      rw [toRat_zero_of_isZero B rhs hrz, mul_zero, add_zero]
+      exact reprRound_contract B hB m c hc p hp lhs hl
+    · simp only [hrz, if_false, Bool.false_eq_true]
+      have he : lhs.exp = rhs.exp := by
+        rcases h with h | h | h
+        · exact absurd h hlz
+        · exact absurd h hrz
+        · exact h
+      simp only [he, if_true]
+      have hv : (FRepr.new B (lhs.signif + rs * rhs.signif) rhs.exp).toRat B =
+          lhs.toRat B + (rs : ℚ) * rhs.toRat B := by
+        rw [FRepr.new_value B hB0]
+        unfold FRepr.toRat
+        rw [he]; push_cast; ring
+      rw [← hv]
+      exact reprRound_contract B hB m c hc p hp _ (FRepr.new_normalized B hB _ _)
+
+/-- `Context::repr_round_sum` without a low part (the alignment kept every digit): one rounding of the
+    exact sum at `rnd_precision = p (+1 for a subtraction)` digits — the contract at `p` digits -/
+theorem reprRoundSum_nolow_contract (B : Nat) (hB : 2 ≤ B) (m : Mode) (c : Coarse) (hc : CoarseSound c)
+    (p : Nat) (hp : 1 ≤ p) (s e : Int) (isSub : Bool) :
+    Contract B m p ((s : ℚ) * bpowQ B e) ((reprRoundSum B m c p s e (0, 0) isSub).1.toRat B)
+      (reprRoundSum B m c p s e (0, 0) isSub).2 := by
+  have hB0 : 0 < B := by omega
+  have hp0 : p ≠ 0 := by omega
+  unfold reprRoundSum
+  simp only [hp0, if_false]
+  generalize hrnd : p + (if isSub = true then 1 else 0) = rndP
+  have hrp : p ≤ rndP := by rw [← hrnd]; omega
+  by_cases h1 : digitsI B s = rndP
+  · simp only [h1, if_true]
+    rw [FRepr.new_value B hB0]; exact contract_exact B m p _
+  · simp only [h1, if_false]
+    by_cases h2 : digitsI B s > rndP
+    · simp only [h2, if_true, zero_add, pow_zero, Nat.cast_one, mul_one]
+      have hs0 : s ≠ 0 := by
+        intro h; rw [h, digitsI_zero] at h2; omega
+      obtain ⟨_, hlo, _⟩ := digitsI_spec B hB s hs0
+      obtain ⟨hsplit, hlt, _, _⟩ := splitDigits_spec B hB s (digitsI B s - rndP)
+      by_cases h3 : (splitDigits B s (digitsI B s - rndP)).2 = 0
+      · simp only [h3, if_true]
+        rw [FRepr.new_value B hB0, bpowQ_add B hB0, bpowQ_nat]
+        have hv : ((splitDigits B s (digitsI B s - rndP)).1 : ℚ) * (bpowQ B e * ((B ^ (digitsI B s - rndP) : Nat) : ℚ)) =
+            (s : ℚ) * bpowQ B e := by
+          rw [h3, add_zero] at hsplit
+          conv_rhs => rw [hsplit]
+          push_cast; ring
+        rw [hv]
+        exact contract_exact B m p _
+      · simp only [h3, if_false]
+        have hulp : ((B ^ (digitsI B s - rndP) : Nat) : Int) * ((B ^ (p - 1) : Nat) : Int) ≤
+            |(splitDigits B s (digitsI B s - rndP)).1 * ((B ^ (digitsI B s - rndP) : Nat) : Int) +
+              (splitDigits B s (digitsI B s - rndP)).2| := by
+          rw [← hsplit]
+          have hle : B ^ (digitsI B s - rndP) * B ^ (p - 1) ≤ B ^ (digitsI B s - 1) := by
+            rw [← Nat.pow_add]; exact Nat.pow_le_pow_right hB0 (by omega)
+          calc ((B ^ (digitsI B s - rndP) : Nat) : Int) * ((B ^ (p - 1) : Nat) : Int)
+              ≤ ((B ^ (digitsI B s - 1) : Nat) : Int) := by exact_mod_cast hle
+            _ ≤ |s| := hlo
+        have key := round_at_contract B hB m c hc p hp _ _ (digitsI B s - rndP) e h3 hlt hulp
+        rw [← hsplit] at key
+        exact key
+    · simp only [h2, if_false, ne_eq, not_true_eq_false, if_true]
+      rw [FRepr.new_value B hB0]; exact contract_exact B m p _
+
+/-- `repr_add_large_small` when the aligned operands fit the precision (`ediff + ldigits ≤ p`): the
+    alignment keeps every digit and the exact sum is rounded once -/
+theorem reprAddLargeSmall_aligned (B : Nat) (hB : 2 ≤ B) (m : Mode) (c : Coarse) (hc : CoarseSound c)
+    (dub : Int → Nat) (p : Nat) (hp : 1 ≤ p) (lhs rhs : FRepr) (rs : Int)
+    (hgt : rhs.exp < lhs.exp) (hkeep : (lhs.exp - rhs.exp).toNat + lhs.digits B ≤ p) :
+    Contract B m p (lhs.toRat B + (rs : ℚ) * rhs.toRat B)
+      ((reprAddLargeSmall B m c dub p lhs rhs rs).1.toRat B) (reprAddLargeSmall B m c dub p lhs rhs rs).2 := by
+  have hB0 : 0 < B := by omega
+  have hed : 1 ≤ (lhs.exp - rhs.exp).toNat := by omega
+  unfold reprAddLargeSmall
+  generalize hsub : decide (sgn lhs.signif ≠ rs * sgn rhs.signif) = isSub
+  have h1 : ¬ (p ≠ 0 ∧ dub rhs.signif + 1 < (lhs.exp - rhs.exp).toNat ∧
+      dub rhs.signif + 1 + (p + if isSub = true then 1 else 0) < lhs.digits B + (lhs.exp - rhs.exp).toNat) := by
+    intro h; omega
+  have h2 : ¬ (p ≠ 0 ∧ lhs.digits B ≥ p) := by intro h; omega
+  have h3 : ¬ (p ≠ 0 ∧ (lhs.exp - rhs.exp).toNat + lhs.digits B > p) := by intro h; omega
+  simp only [h1, h2, h3, if_false]
+  have hv : ((lhs.signif * ((B ^ (lhs.exp - rhs.exp).toNat : Nat) : Int) + rs * rhs.signif : Int) : ℚ) * bpowQ B rhs.exp =
+      lhs.toRat B + (rs : ℚ) * rhs.toRat B := by
+    unfold FRepr.toRat
+    have : bpowQ B lhs.exp = ((B ^ (lhs.exp - rhs.exp).toNat : Nat) : ℚ) * bpowQ B rhs.exp := by
+      rw [← bpowQ_nat, ← bpowQ_add B hB0, Int.toNat_of_nonneg (by omega)]
+      congr 1; ring
+    rw [this]; push_cast; ring
+  rw [← hv]
+  exact reprRoundSum_nolow_contract B hB m c hc p hp _ _ isSub
+
+theorem digits_mul_sign (B : Nat) (v rs : Int) (hrs : rs = 1 ∨ rs = -1) : digitsI B (rs * v) = digitsI B v := by
+  unfold digitsI
+  rcases hrs with h | h <;> subst h <;> simp
+
+/-- **`Context::add` / `Context::sub` whenever the alignment keeps all digits** (one operand zero, equal
+    exponents, or `exponent gap + digits of the operand with the larger exponent ≤ p`): the result is the
+    single rounding of the exact sum and honours the contract. -/
+theorem addSub_aligned_contract (B : Nat) (hB : 2 ≤ B) (m : Mode) (c : Coarse) (hc : CoarseSound c)
+    (dub : Int → Nat) (p : Nat) (hp : 1 ≤ p) (lhs rhs : FRepr) (rs : Int) (hrs : rs = 1 ∨ rs = -1)
+    (hl : Normalized B lhs) (hr : Normalized B rhs)
+    (h : lhs.isZero = true ∨ rhs.isZero = true ∨ lhs.exp = rhs.exp ∨
+      (rhs.exp < lhs.exp ∧ (lhs.exp - rhs.exp).toNat + lhs.digits B ≤ p) ∨
+      (lhs.exp < rhs.exp ∧ (rhs.exp - lhs.exp).toNat + rhs.digits B ≤ p)) :
+    Contract B m p (lhs.toRat B + (rs : ℚ) * rhs.toRat B)
+      ((ctxAddSub B m c dub p lhs rhs rs).1.toRat B) (ctxAddSub B m c dub p lhs rhs rs).2 := by
+  by_cases hs : lhs.isZero = true ∨ rhs.isZero = true ∨ lhs.exp = rhs.exp
+  · exact addSub_simple_contract B hB m c hc dub p hp lhs rhs rs hrs hl hr hs
+  · have hlz : ¬ lhs.isZero = true := fun h => hs (Or.inl h)
+    have hrz : ¬ rhs.isZero = true := fun h => hs (Or.inr (Or.inl h))
+    have hne : ¬ lhs.exp = rhs.exp := fun h => hs (Or.inr (Or.inr h))
+    unfold ctxAddSub
+    simp only [hlz, hrz, hne, if_false, Bool.false_eq_true]
+    rcases h with h | h | h | h | h
+    · exact absurd h hlz
+    · exact absurd h hrz
+    · exact absurd h hne
+    · have hgt : lhs.exp > rhs.exp := h.1
+      simp only [hgt, if_true]
+      exact reprAddLargeSmall_aligned B hB m c hc dub p hp lhs rhs rs h.1 h.2
+    · have hgt : ¬ lhs.exp > rhs.exp := by omega
+      simp only [hgt, if_false]
+      have key := reprAddLargeSmall_aligned B hB m c hc dub p hp ⟨rs * rhs.signif, rhs.exp⟩ lhs 1 h.1
+        (by simp only [FRepr.digits] at *; rw [digits_mul_sign B _ _ hrs]; exact h.2)
+      have hv : (⟨rs * rhs.signif, rhs.exp⟩ : FRepr).toRat B + ((1 : Int) : ℚ) * lhs.toRat B =
+          lhs.toRat B + (rs : ℚ) * rhs.toRat B := by
+        unfold FRepr.toRat; push_cast; ring
+      rw [hv] at key
+      exact key
 
 end Dashu.Model.Float
